@@ -2279,6 +2279,21 @@ unit(name="SrcOcc", props="properties C04, C05", file="src/data_structures/bwt.r
                      theorem="RbV.Thm.GenSrcOcc.get_eq_model")])
 
 
+# `prescan(&mut less[..], 0, |a, b| a + b)`: the callee is the translated `utils::prescan` (Gen/SrcPrescan.lean) with the closure
+# read as the pure `+` on `Nat` (its overflow check is not modelled: every partial sum is at most `bwt.len()`, a `usize`)
+LESS_REWRITES = [("prescan(&mut less[..], 0, |a, b| a + b);", "less = prescan_add(less, 0);")]
+
+unit(name="SrcLess", props="property C04", file="src/data_structures/bwt.rs", imports=["RbV.Gen.SrcPrescan"],
+     aliases={"BWTSlice": "[u8]", "Less": "Vec<usize>", "BWTFind": "Vec<usize>"}, generics={"Alphabet": "Alph"},
+     functions=[dict(name="less", lean="less", header="pub fn less(bwt: &BWTSlice, alphabet: &Alphabet) -> Less",
+                     rewrites=ALPH_REWRITES + LESS_REWRITES,
+                     abstract_fns={"alphabet_max_symbol": ALPH_ABS["alphabet_max_symbol"]},
+                     calls={"prescan_add": dict(lean="RbV.Gen.SrcPrescan.prescan (· + ·)", args=["Vec<usize>", "usize"],
+                                                ret="Vec<usize>")},
+                     params=[("bwt", "&BWTSlice"), ("alphabet", "&Alphabet")], ret="Less",
+                     theorem="RbV.Thm.GenSrcLess.less_eq_model")])
+
+
 # ================================================================================================== self-test
 
 SELFTEST_RS = r"""
